@@ -56,6 +56,13 @@ class SymVals:
             return x.st == "z"
         return isinstance(x, float) and x == -math.inf
 
+    def ge(self, a, b):
+        """a >= b exactly (floats: up to rounding)"""
+        return a >= b
+
+    def le(self, a, b):
+        return a <= b
+
     def array(self, shape, fn):
         a = np.empty(shape, dtype=object)
         for idx in np.ndindex(*shape):
@@ -113,6 +120,12 @@ class FloatVals:
 
     def is_neginf(self, x):
         return x == -math.inf
+
+    def ge(self, a, b, tol=1e-9):
+        return bool(a >= b - tol * (1 + abs(a) + abs(b)))
+
+    def le(self, a, b, tol=1e-9):
+        return bool(a <= b + tol * (1 + abs(a) + abs(b)))
 
     def array(self, shape, fn):
         a = np.empty(shape, dtype=float)
